@@ -62,3 +62,33 @@ fn c07_interface_target_matches() {
     assert!(got == want, "interface target matches a path that does not traverse it, or misses one that does");
     std::mem::forget(p);
 }
+
+// verif: prop=C07 tier=quick cap=600 bound="3-AS path with arbitrary interface ids; arbitrary FirstHop / LastHop targets (AS among 4, any interface id)" fns="IssueMarkerTarget::matches_path (FirstHop, LastHop),ScionPath::{first_egress_interface,last_ingress_interface}" stubs="SHA-256 fingerprints -> cheap functions"
+#[kani::proof]
+#[kani::unwind(6)]
+#[kani::stub(sciparse::path::fingerprint::data_plane::DpPathFingerprint::from_dp_path, fp_stub)]
+#[kani::stub(sciparse::path::fingerprint::control_plane::PathFingerprint::try_from_scion_path, cp_stub)]
+fn c07_first_last_hop_targets() {
+    let ids: [u16; 4] = kani::any();
+    let (a, b, c) = (ia(0), ia(1), ia(2));
+    let ifs = vec![
+        InterfaceMetadata::new_without_metadata(PathInterface { isd_asn: a, id: ids[0] }),
+        InterfaceMetadata::new_without_metadata(PathInterface { isd_asn: b, id: ids[1] }),
+        InterfaceMetadata::new_without_metadata(PathInterface { isd_asn: b, id: ids[2] }),
+        InterfaceMetadata::new_without_metadata(PathInterface { isd_asn: c, id: ids[3] }),
+    ];
+    let md = PathMetadata { expiration: 0, mtu: 1500, interfaces: Some(ifs), epic_auth: None, notes: None };
+    let p = ScionPath::new(a, c, ScionDpPathView::Empty, Some(md), None);
+    let fp = p.fingerprint();
+    let t_as = ia(kani::any());
+    let t_if: u16 = kani::any();
+    let first = IssueMarkerTarget::FirstHop { isd_asn: t_as, egress_interface: t_if };
+    let last = IssueMarkerTarget::LastHop { isd_asn: t_as, ingress_interface: t_if };
+    let got_first = first.matches_path(&p, &fp);
+    let got_last = last.matches_path(&p, &fp);
+    kani::cover!(got_first, "first-hop target matches");
+    kani::cover!(got_last, "last-hop target matches");
+    assert!(got_first == (t_as == a && t_if == ids[0]), "first-hop target: a report that matches no path in use must change nothing, one that matches must be seen");
+    assert!(got_last == (t_as == c && t_if == ids[3]), "last-hop target matching wrong");
+    std::mem::forget(p);
+}
